@@ -104,8 +104,8 @@ pub fn random_spec_at(depth_max: u8, mixed: bool, anchor_fractions: Vec<f64>) ->
   let nl = mb::n_leaves(depth_max);
   let anchors: Vec<u64> = anchor_fractions.iter().map(|f| ((f * nl as f64) as u64).min(nl - 1)).collect();
   let cell = (0usize..3, 0u8..=depth_max, prop_oneof![3 => Just(0u8), 2 => 1u8..=3, 1 => 0u8..=29], -4i64..=4, any::<bool>(), any::<bool>());
-  (Just(anchors), prop::collection::vec(cell, 0..28), 0u8..10)
-    .prop_map(move |(anchors, cells, degenerate)| {
+  (Just(anchors), prop::collection::vec(cell, 0..28), 0u8..10, prop::collection::vec((0u8..10, any::<u64>()), 12))
+    .prop_map(move |(anchors, cells, degenerate, per_base)| {
       let mut cand: Vec<MCell> = vec![];
       for (ai, d_uniform, d_from_max, off, flag, use_uniform) in cells {
         let d = if use_uniform { d_uniform } else { depth_max.saturating_sub(d_from_max) };
@@ -138,6 +138,24 @@ pub fn random_spec_at(depth_max: u8, mixed: bool, anchor_fractions: Vec<f64>) ->
             }
           }
           shape = "three_siblings";
+        }
+        4 => {
+          // nearly the whole sky: most base cells entirely, some absent, some reduced to one
+          // deeper cell, some keeping the random cells that fell into them
+          let in_base = |c: &MCell| (c.hash >> (2 * c.depth as u32)) as usize;
+          cand.retain(|c| per_base[in_base(c)].0 == 9);
+          for (b, &(choice, bits)) in per_base.iter().enumerate() {
+            match choice {
+              0..=6 => cand.push(MCell { depth: 0, hash: b as u64, full: true }),
+              8 if depth_max > 0 => {
+                let d = 1 + (bits % depth_max.min(4) as u64) as u8;
+                let h = ((b as u64) << (2 * d as u32)) | ((bits >> 8) & ((1u64 << (2 * d as u32)) - 1));
+                cand.push(MCell { depth: d, hash: h, full: !mixed || bits >> 63 == 0 });
+              }
+              _ => {}
+            }
+          }
+          shape = "mostly_base_cells";
         }
         _ => {}
       }
